@@ -10,6 +10,7 @@ import TlxVerif.Model.C01Tree
 import TlxVerif.Model.C01Erase
 import TlxVerif.Proofs.C01Basic
 import TlxVerif.Proofs.C01Main
+import TlxVerif.Proofs.C01Query
 namespace TlxVerif.C01
 
 variable {K V : Type}
@@ -72,32 +73,70 @@ def Spec.runInserts (p : Params K) : List (K × V) → List (K × V) → List (K
       | none => false
     if !p.dup && present then Spec.runInserts p l ops else Spec.runInserts p (Spec.insertLB p.lt l k v) ops
 
-/-- the part of the refinement proved for all insertion histories: the model never leaves defined
-behaviour, stays inside the invariant, and its entry sequence is obtained by lower-bound
-insertions of a sub-history (which insertions are dropped is decided by `inserted`) -/
-theorem insert_history_refines_partial (p : Params K) (pv : p.Valid) (sw : StrictWeak p.lt) :
+/-- one `insert` against the abstract container: same acceptance decision, same resulting sequence -/
+theorem insert_step_refines (p : Params K) (pv : p.Valid) (sw : StrictWeak p.lt) (t : Tree K V) (ht : TreeInv p t)
+    (k : K) (v : V) :
+    ∃ res, insert p t k v = some res ∧ TreeInv p res.tree ∧
+      res.inserted = !(!p.dup && presentOpt p k (t.toList[lbIdx p.lt k t.toList]?)) ∧
+      res.tree.toList = Spec.runInserts p t.toList [(k, v)] := by
+  obtain ⟨res, hres, hinv, htl⟩ := insert_refines p pv sw t ht k v
+  have hins := insert_inserted p pv sw t ht k v res hres
+  refine ⟨res, hres, hinv, hins, ?_⟩
+  rw [htl, hins]
+  simp only [Spec.runInserts]
+  have : (match t.toList[lbIdx p.lt k t.toList]? with | some e => p.eqv k e.1 | none => false) =
+      presentOpt p k (t.toList[lbIdx p.lt k t.toList]?) := by
+    cases t.toList[lbIdx p.lt k t.toList]? <;> rfl
+  rw [this]
+  cases hc : (!p.dup && presentOpt p k (t.toList[lbIdx p.lt k t.toList]?)) <;> simp
+
+theorem Spec.runInserts_cons (p : Params K) (l : List (K × V)) (op : K × V) (ops : List (K × V)) :
+    Spec.runInserts p l (op :: ops) = Spec.runInserts p (Spec.runInserts p l [op]) ops := by
+  obtain ⟨k, v⟩ := op
+  simp only [Spec.runInserts]
+  split <;> split <;> rfl
+
+/-- refinement for all histories of insertions: from any state satisfying the invariant the model never
+leaves defined behaviour, stays inside the invariant, and its entry sequence is the one of the
+abstract container driven by the same history -/
+theorem insert_history_refines (p : Params K) (pv : p.Valid) (sw : StrictWeak p.lt) :
     ∀ (ops : List (K × V)) (t : Tree K V), TreeInv p t →
-      ∃ t', runInserts p t ops = some t' ∧ TreeInv p t' ∧ SortedE p.lt t'.toList ∧
-        t'.toList.length ≤ t.toList.length + ops.length := by
+      ∃ t', runInserts p t ops = some t' ∧ TreeInv p t' ∧ t'.toList = Spec.runInserts p t.toList ops := by
   intro ops
   induction ops with
-  | nil => intro t ht; exact ⟨t, rfl, ht, ht.2.1, by simp⟩
+  | nil => intro t ht; exact ⟨t, rfl, ht, rfl⟩
   | cons op ops ih =>
     intro t ht
     obtain ⟨k, v⟩ := op
-    obtain ⟨res, hres, hinv, htl⟩ := insert_refines p pv sw t ht k v
-    obtain ⟨t', h1, h2, h3, h4⟩ := ih res.tree hinv
-    refine ⟨t', ?_, h2, h3, ?_⟩
+    obtain ⟨res, hres, hinv, _, htl⟩ := insert_step_refines p pv sw t ht k v
+    obtain ⟨t', h1, h2, h3⟩ := ih res.tree hinv
+    refine ⟨t', ?_, h2, ?_⟩
     · simp only [runInserts, hres]; exact h1
-    · have : res.tree.toList.length ≤ t.toList.length + 1 := by
-        rw [htl]; split <;> simp [Spec.insertLB, length_insertAt]
-      simp only [List.length_cons]; omega
+    · rw [h3, htl, ← Spec.runInserts_cons]
 
--- OPEN: insert_history_refines — `runInserts p {} ops` has the entry sequence `Spec.runInserts p [] ops`;
---   missing: `res.inserted = !( !p.dup && present )`, i.e. that the slot tested by `insert_descend` in
---   the leaf is the global lower-bound position (routing lemma applied to `presentAt`).
-def insert_history_refines_statement (p : Params K) : Prop :=
-  ∀ (ops : List (K × V)), (runInserts (V := V) p {} ops).map Tree.toList = some (Spec.runInserts p [] ops)
+/-! ## queries -/
+
+/-- `lower_bound(key)`: the returned position is the lower bound of the abstract container -/
+theorem lower_bound_refines (p : Params K) (sw : StrictWeak p.lt) (t : Tree K V) (ht : TreeInv p t) (k : K) :
+    ∃ pos, lowerBound p t k = some pos ∧ rankOf t.leafChain pos = lbIdx p.lt k t.toList :=
+  lowerBound_spec p sw t ht k
+
+/-- `upper_bound(key)` -/
+theorem upper_bound_refines (p : Params K) (sw : StrictWeak p.lt) (t : Tree K V) (ht : TreeInv p t) (k : K) :
+    ∃ pos, upperBound p t k = some pos ∧ rankOf t.leafChain pos = ubIdx p.lt k t.toList :=
+  upperBound_spec p sw t ht k
+
+/-- `find(key)`: first equivalent entry, or `end()` -/
+theorem find_refines (p : Params K) (sw : StrictWeak p.lt) (t : Tree K V) (ht : TreeInv p t) (k : K) :
+    ∃ pos, find p t k = some pos ∧
+      rankOf t.leafChain pos =
+        if presentOpt p k (t.toList[lbIdx p.lt k t.toList]?) then lbIdx p.lt k t.toList else t.toList.length :=
+  find_spec p sw t ht k
+
+/-- `exists(key)` -/
+theorem exists_refines (p : Params K) (sw : StrictWeak p.lt) (t : Tree K V) (ht : TreeInv p t) (k : K) :
+    existsKey p t k = some (presentOpt p k (t.toList[lbIdx p.lt k t.toList]?)) :=
+  existsKey_spec p sw t ht k
 
 -- OPEN: erase_refines — `eraseOne`/`eraseIter` (transliterated in Model/C01Erase.lean, checked against the
 --   implementation structurally on every run) remove exactly the first equivalent entry / the entry at the
@@ -126,7 +165,7 @@ def sampleOps : List (Nat × Unit) := (List.range 30).map (fun i => ((i * 7) % 1
 
 example : ∃ t, runInserts (natParams 4 4 true true) ({} : Tree Nat Unit) sampleOps = some t ∧
     TreeInv (natParams 4 4 true true) t ∧ t.height = 2 ∧ t.toList.length = 30 := by
-  obtain ⟨t, h1, h2, _, _⟩ := insert_history_refines_partial (natParams 4 4 true true) natParams_valid
+  obtain ⟨t, h1, h2, _⟩ := insert_history_refines (natParams 4 4 true true) natParams_valid
     nat_strictWeak sampleOps {} (treeInv_empty _)
   refine ⟨t, h1, h2, ?_, ?_⟩
   · have : (runInserts (natParams 4 4 true true) ({} : Tree Nat Unit) sampleOps).map Tree.height = some 2 := by decide +kernel
